@@ -49,11 +49,11 @@ def _reset_logging():
 @contextlib.contextmanager
 def scripted_input(answers, log):
     orig = builtins.input
-    it = iter(answers if answers is not None else [])
+    it = iter(answers if answers is not None and not callable(answers) else [])
 
     def fake(prompt=""):
         try:
-            a = next(it)
+            a = answers(prompt) if callable(answers) else next(it)
         except StopIteration:
             log.append((prompt, None))
             raise NoMoreAnswers(prompt)
@@ -102,14 +102,31 @@ def run_cli(tool, argv, cwd=None, answers=None, keep_figures=False):
                 else:
                     pm = importlib.import_module("evo.main_%s_parser" % tool)
                     mm = importlib.import_module("evo.main_%s" % tool)
-                    args = pm.parser().parse_args(list(argv))
-                    if hasattr(args, "config"):
-                        args = entry_points.merge_config(args)
-                    res.args = args
-                    mm.run(args)
+                    raised = []
+
+                    class _Main:
+                        """stand-in for the tool's module handed to evo's own launch(): records the
+                        arguments launch passes on and the exception the tool raises (launch itself
+                        turns every exception into exit status 1)"""
+                        __name__ = mm.__name__
+
+                        @staticmethod
+                        def run(args):
+                            res.args = args
+                            try:
+                                mm.run(args)
+                            except BaseException as e:  # noqa
+                                raised.append(e)
+                                raise
+
+                    sys.argv = ["evo_" + tool] + [str(a) for a in argv]
+                    entry_points.launch(_Main, pm.parser())
                 res.exit = 0
             except SystemExit as e:
-                res.exit = e.code if e.code is not None else 0
+                if tool != "config" and raised and not isinstance(raised[-1], SystemExit):
+                    res.exc = raised[-1]
+                else:
+                    res.exit = e.code if e.code is not None else 0
             except BaseException as e:  # noqa
                 res.exc = e
     finally:
